@@ -57,6 +57,7 @@ class Obj:
     def __init__(self, ok):
         self.ok = ok
         self.tags = ["t", ok]
+        self.problem = KeyError("kept for later", ok)
 
 
 def make(base):
@@ -83,7 +84,8 @@ class K:
         return marker
 '''
 
-CONDS_FN = ['any(len(n_) == len(name) for n_ in NAMES)', '(lambda k: k + v)(1) > 2', 'sum(1 for _ in range(v)) > 1',
+CONDS_FN = ['"yes"[1:2]', '""', '","', 'name[5:]',    # text that is not one of the words for yes: the condition is not met
+            'any(len(n_) == len(name) for n_ in NAMES)', '(lambda k: k + v)(1) > 2', 'sum(1 for _ in range(v)) > 1',
             'v > 2', 'flag', 'not flag', 'v % 2 == 0', 'GLOBAL_LIMIT < v', 'helper(v)', 'obj.ok', 'len(name) == 3',
             'name in NAMES', 'True', 'False', '', '   ', 'v / 0 > 1', 'undefined_zz > 1', 'raise_base()',
             'fail_with("1")', 'fail_with("true")', 'fail_with("boom")', 'obj.missing', 'v == 1 or flag',
@@ -93,7 +95,8 @@ CONDS_FN = ['any(len(n_) == len(name) for n_ in NAMES)', '(lambda k: k + v)(1) >
             'FrameCollector is not None', 'bool(v)', 'v in (1, 3, 5)']
 CONDS_MOD = ['GLOBAL_LIMIT == 3', 'GLOBAL_LIMIT > 5', 'helper is not None', 'len(NAMES) == 3', 'nope_zz', '',
              'uuid is not None', '"MOD_MARK" in dir()']
-EXPRS = ['sum(x * v for x in [1, 2, 3])', '(lambda: name.upper())()', 'sorted(n_ + name for n_ in NAMES)',
+EXPRS = ['ValueError("kept", v)', 'obj.problem',      # expressions whose *value* is an exception object (nothing is raised)
+         'sum(x * v for x in [1, 2, 3])', '(lambda: name.upper())()', 'sorted(n_ + name for n_ in NAMES)',
          'v', 'name', 'v + 1', 'GLOBAL_LIMIT', 'NAMES', 'helper(v)', 'len(NAMES)', 'NAMES[0] + name', 'obj.ok',
          'obj.tags', 'sorted(NAMES)', 'max(v, GLOBAL_LIMIT)', 'uuid', 'FrameCollector', 'time_ns', 'deep',
          'undefined_zz', '1/0', 'fail_with("x")', 'raise_base()', 'str(flag)', '[v, GLOBAL_LIMIT]', 'abs(-v)']
